@@ -41,6 +41,8 @@ var (
 	Failures []string
 	Observed []string
 	tier     int
+	// Exhausted is set when the harness asked for more inputs than the assignment holds.
+	Exhausted bool
 )
 
 // Load reads the replay assignment; called by the native test driver.
@@ -55,7 +57,7 @@ func Load(path string) (string, error) {
 	if err := json.Unmarshal(b, &rf); err != nil {
 		return "", err
 	}
-	pos, loaded, Failures, Observed = 0, true, nil, nil
+	pos, loaded, Failures, Observed, Exhausted = 0, true, nil, nil, false
 	tier = rf.Tier
 	return rf.Harness, nil
 }
@@ -67,7 +69,10 @@ func next(kind string) inputValue {
 		panic("zzverif: no replay assignment loaded (harnesses only run under gosymx or the replay driver)")
 	}
 	if pos >= len(rf.Inputs) {
-		panic(AssumeFailed{"replay assignment exhausted at " + kind})
+		// The executor stopped creating inputs here (its path ended at a failure).
+		// Keep going with zero values so that the native run can finish.
+		Exhausted = true
+		return inputValue{Kind: kind}
 	}
 	v := rf.Inputs[pos]
 	pos++
@@ -91,6 +96,9 @@ func Bool() bool     { return next("bool").Int != 0 }
 // Int returns an arbitrary value in [lo, hi].
 func Int(lo, hi int) int {
 	v := int(next("int").Int)
+	if Exhausted {
+		return lo
+	}
 	if v < lo || v > hi {
 		panic(AssumeFailed{"Int out of range"})
 	}
